@@ -2,6 +2,8 @@ package main
 
 import (
 	"fmt"
+	"io"
+	"net/http"
 	"strings"
 	"sync"
 	"time"
@@ -437,7 +439,7 @@ func init() {
 			return cs
 		},
 		func(e *vh.Env, c c09Sys, o *vh.Out) {
-			o.Need("sys_requests", "sys_429", "sys_forwarded", "drained_clients_rechecked_after_reconfiguration")
+			o.Need("sys_requests", "sys_429", "sys_forwarded", "drained_clients_rechecked_after_reconfiguration", "sys_requests_on_reused_connection")
 			bes := newBackends(2)
 			defer closeBackends(bes)
 			cfg := baseConfig(c.Strategy, bes)
@@ -464,13 +466,47 @@ func init() {
 				}
 			}
 			clients = append(clients, cl{nil, "127.0.0.1"})
+			// half of the cases send everything over one reused keep-alive connection: the client is who the headers
+			// say, not who opened the connection
+			var ka *http.Client
+			if c.Idx%2 == 1 {
+				tr := &http.Transport{MaxConnsPerHost: 1, MaxIdleConnsPerHost: 1, DisableCompression: true}
+				ka = &http.Client{Transport: tr, Timeout: 30 * time.Second}
+				defer tr.CloseIdleConnections()
+			}
+			doReq := func(target string, hdr [][2]string) (int, string) {
+				if ka == nil {
+					rs := vh.Do(sys.Addr, vh.RawReq{Method: "GET", Target: target, Headers: hdr, Instant: true})
+					return rs.Status, string(rs.Body)
+				}
+				req, _ := http.NewRequest("GET", "http://"+sys.Addr+target, nil)
+				for _, h := range hdr {
+					req.Header.Add(h[0], h[1])
+				}
+				resp, err := ka.Do(req)
+				if err != nil {
+					return 0, err.Error()
+				}
+				b, _ := io.ReadAll(resp.Body)
+				resp.Body.Close()
+				o.Obs("sys_requests_on_reused_connection", 1)
+				return resp.StatusCode, string(b)
+			}
 			model := map[string]int{} // admitted so far per attributed client; no time passes below, so the allowance is max
 			total429 := 0
 			t0 := time.Now()
 			for i := 0; i < 160; i++ {
 				c1 := clients[r.Intn(len(clients))]
 				before := bes[0].Count() + bes[1].Count()
-				rs := vh.Do(sys.Addr, vh.RawReq{Method: "GET", Target: fmt.Sprintf("/rl/%d", i), Headers: c1.hdr, Instant: true})
+				st, body := doReq(fmt.Sprintf("/rl/%d", i), c1.hdr)
+				rs := struct {
+					Status int
+					Body   string
+					Err    string
+				}{st, body, ""}
+				if st == 0 {
+					rs.Err = body
+				}
 				arrived := bes[0].Count() + bes[1].Count() - before
 				o.Obs("sys_requests", 1)
 				ctx := fmt.Sprintf("%s max_tokens=%d client %q (headers %v) request #%d of that client", c.Strategy, c.Max, c1.attr, c1.hdr, model[c1.attr]+1)
